@@ -243,7 +243,10 @@ fn program(case: &[i128]) -> Option<Prog> {
             let call = match v {
                 0 => "x.zip(y, |p, q| p.wrapping_add(q))",
                 1 => "(&x).zip(&y, |p, q| p.wrapping_add(*q))",
-                _ => "(&x).zip(y, |p, q| p.wrapping_add(q))",
+                2 => "(&x).zip(y, |p, q| p.wrapping_add(q))",
+                3 => "x.inverted_zip(y, |q, p| p.wrapping_add(q))",
+                4 => "x.inverted_zip2(y, |q, p| p.wrapping_add(q))",
+                _ => "x.inverted_zip2(&y, |q, p| p.wrapping_add(*q))",
             };
             lens_fn(
                 "(x, y)",
@@ -418,6 +421,12 @@ fn cases(tier: &str, rng: &mut Rng) -> Vec<Vec<i128>> {
                 if v == 0 || small {
                     push(6, v, n, k, -1, 0);
                     push(7, v, n, k, -1, 0);
+                    push(8, v, n, k, -1, 0);
+                }
+            }
+            // the doc-hidden building blocks of zip called directly
+            if n <= 3 && k <= 3 {
+                for v in 3..6 {
                     push(8, v, n, k, -1, 0);
                 }
             }
